@@ -182,6 +182,7 @@ func FuncBuilder(env *Zlisp, name string,
 	// are lazy (#x) instead of evaluating every argument eagerly.
 	known := gen.env.MakeFunction(gen.funcname, nargs, varargs, nil, orig)
 	known.SetFormalSymbols(argsyms)
+	known.inputTypes = inHash
 	gen.knownFunctions[env.MakeSymbol(funcName).number] = known
 
 	for i := len(argsyms) - 1; i >= 0; i-- {
